@@ -239,6 +239,13 @@ PROPS['X02'] = dict(
     rule='mathext/util Min/Max/Clap of all ten integer types (values within +-2^30), typehelper.ToSlice, iohelper.AtToReader with arbitrary read sizes',
     assumptions=TRUST,
 )
+PROPS['X04'] = dict(
+    extra=True, trace=dict(module='Trace_Vers', cfg='Trace_Vers.cfg'), mc=dict(quick=[], thorough=[]), need_kinds=['vers'],
+    gen=dict(quick=[bfs('Gen_Vers', 'Gen_Vers.cfg', 'vers', shards=4)], thorough=[bfs('Gen_Vers', 'Gen_Vers.cfg', 'vers', shards=8)]),
+    rule='package vers: TLC enumerates versions x specs over small sets (Gen_Vers: every operator, every ordering of two versions incl. numeric pre-releases and 9 vs 10 in a component; single comparators, conjunctions, disjunctions), '
+         'plus seeded versions / specs with up to 3 x 3 comparators, versions close to the comparator, several spellings of = and !=, malformed version strings; vers.Check and vers.IsCompatible judged against Vers!CheckD',
+    assumptions=TRUST + ['pre-releases are numeric ("-N"); build metadata and wildcard ranges are not generated'],
+)
 PROPS['X03'] = dict(
     extra=True, trace=dict(module='Trace_TreeStr', cfg='Trace_TreeStr.cfg'), mc=dict(quick=[], thorough=[]), need_kinds=['tree'],
     shards=dict(quick=1, thorough=1),
